@@ -1409,7 +1409,10 @@ func (x *runner) sctDec(ca *authority, base parts, val []byte, embedded [][]byte
 	}
 	var c *x509.Certificate
 	p := verifkit.Guard(func() { c, err = x509.ParseCertificate(der) })
-	a := "err"
+	a := "err-nonfatal" // an unreadable SCT list is recorded as a NonFatalError: the certificate is still returned
+	if err != nil && (c == nil || x509.IsFatal(err)) {
+		a = "err-fatal"
+	}
 	if p != "" {
 		a = "panic"
 		x.out.Fail("sctdec "+h(val), "panic: "+p)
